@@ -248,7 +248,18 @@ def run_generic(ctx, prop, kind, algos, spec):
         elif spec["kind"] == "deep":
             rng = ctx.rng("deep")
             for k in range(spec["count"]):
-                case = gen.deep_super_case(rng, ordered=kind == "ordered", max_obj=spec.get("max_obj", 7), max_fam=spec.get("max_fam", 5))
+                case = gen.deep_super_case(rng, ordered=kind == "ordered", min_obj=spec.get("min_obj", 5), max_obj=spec.get("max_obj", 7), max_fam=spec.get("max_fam", 5),
+                                           max_sp=spec.get("max_sp", 4))
+                if spec.get("min_obj", 5) >= 8:
+                    case["costs"] = gen.tame(case["costs"], len(case["leafmap"]))
+                    if kind == "ordered":
+                        # one prescribed root order (the oracle and the solver would otherwise go through every
+                        # linear extension of up to 5 families on a 10-leaf tree)
+                        ro = label.one_extension([tuple(s) for s in case["syn"].values()], rng)
+                        if ro is None:
+                            continue
+                        case["root_order"] = list(ro)
+                    ctx.count("big_cases")
                 case["algos"] = list(algos)
                 check_case(ctx, prop, case, algos, hooks=hooks)
                 ctx.count("deep_cases")
